@@ -10,9 +10,11 @@ from .common import F, G, base_sample, cfg_simplifications, observe, rows
 ID = "C04"
 RULE = ("Hypothesis-generated configurations biased to crops with CCx > 0.96 (Cotton, DryBean, Soybean, SugarBeet, Sunflower and "
         "CCx overrides up to 0.99) under good water supply, bunds with ponding, mulches, partial wetting (WetSurf<100) and net "
-        "irrigation; every simulated day is one evaluation of all sign / actual<=potential / off-season relations. Non-trivial "
-        "configuration: >=1 day with canopy cover > 0.966, or ponding>0 with Es>0, or mulches with Es>0, or irrigation with "
-        "WetSurf<100; distinct = configuration hash.")
+        "irrigation, layered soils with a sharp conductivity contrast; plus 32 enumerated 'crust' fields (conductivity contrast x "
+        "(partly) saturated start x storms on the first days); every simulated day is one evaluation of all sign / "
+        "actual<=potential / off-season relations. Non-trivial configuration: >=1 day with canopy cover > 0.966, or ponding>0 with "
+        "Es>0, or mulches with Es>0, or irrigation with WetSurf<100, or deep percolation through a soil of >= 2 layers; distinct = "
+        "configuration hash.")
 ASSUMPTIONS = [
     "a run whose initial profile lies above saturation or below air-dry in some compartment (possible when depth points of one layer are extended into a layer with other hydraulic properties) is outside the domain of valid configurations: counted under the label start_outside_airdry_saturation, not evaluated",
     "tolerance 1e-9 mm; net-irrigation requirement (strategy 4) may be as low as -0.01 mm x number of compartments (root-zone bookkeeping rounding stated in the property)",
@@ -88,7 +90,10 @@ def evaluate(cfg):
         L.add("off_season_days")
     if method == 4 and (fl[:, F["IrrDay"]] > 0).any():
         L.add("net_irrigation")
-    res.nontrivial = bool(dense or pond_es or mulch or wet)
+    layered_perc = bool(cfg["soil"]["type"] == "custom" and len(cfg["soil"].get("layers", [])) >= 2 and (fl[:, F["DeepPerc"]] > 0).any())
+    if layered_perc:
+        L.add("deep_percolation_through_layered_soil")
+    res.nontrivial = bool(dense or pond_es or mulch or wet or layered_perc)
     return res
 
 
